@@ -53,6 +53,21 @@ def worker(k, q, results):
             rc, out = -1, 'TIMEOUT'
         vio = [l for l in out.splitlines() if l.startswith('VIOLATION')]
         results[sid] = {'property': prop, 'exit': rc, 'violation': vio[0] if vio else None, 'wall_s': round(time.time() - t0, 1)}
+        detail = ''
+        m = re.search(r'replay=(\S+)', vio[0]) if vio else None
+        if m and os.path.exists(m.group(1)):
+            try:
+                d = json.load(open(m.group(1)))
+                detail = {'requests': [r[:2000] for r in d.get('requests', [])[:1]], 'spec': (d.get('spec_failures') or [])[:2], 'impl': (d.get('impl_failures') or [])[:2]}
+            except Exception:
+                pass
+        mp = os.path.join(ROOT, 'seeded', sid, 'meta.json')
+        try:
+            meta = json.load(open(mp))
+            meta.setdefault('checks_run', {})[prop] = {'exit': rc, 'violation': re.sub(r'/tmp/sw_\d+/verif', '/verif', vio[0]) if vio else None, 'detail': detail, 'wall_s': results[sid]['wall_s'], 'how': 'tools/seed_sweep.py'}
+            json.dump(meta, open(mp, 'w'), indent=1)
+        except Exception:
+            pass
         print(f'[{sid}] exit {rc} {vio[0][:90] if vio else "(no violation reported)"} {results[sid]["wall_s"]}s', flush=True)
     sh(['git', 'checkout', '--', '.'], cwd=base + '/repo')
     sh(['git', '-C', '/repo', 'worktree', 'remove', '--force', base + '/repo'])
